@@ -215,28 +215,31 @@ struct Elem {
     xml_decl: bool,
 }
 
-fn write_elem(e: &Elem, out: &mut Vec<u8>) {
+/// blanks written in front of every attribute (the presentation layer varies them)
+const SEPS: [&str; 5] = [" ", "\t", "\n", "\r\n\t", "  "];
+
+fn write_elem(e: &Elem, sep: &str, out: &mut Vec<u8>) {
     out.push(b'<');
     out.extend_from_slice(e.name.as_bytes());
     if e.xml_decl {
-        out.extend_from_slice(b" xmlns:xml='http://www.w3.org/XML/1998/namespace'");
+        out.extend_from_slice(format!("{}xmlns:xml='http://www.w3.org/XML/1998/namespace'", sep).as_bytes());
     }
     for &d in &e.decls {
         let (p, u) = DECLS[d];
         if p.is_empty() {
-            out.extend_from_slice(format!(" xmlns=\"{}\"", u).as_bytes());
+            out.extend_from_slice(format!("{}xmlns=\"{}\"", sep, u).as_bytes());
         } else {
-            out.extend_from_slice(format!(" xmlns:{}='{}'", p, u).as_bytes());
+            out.extend_from_slice(format!("{}xmlns:{}='{}'", sep, p, u).as_bytes());
         }
     }
     match e.attr {
-        1 => out.extend_from_slice(b" x=\"1\""),
-        2 => out.extend_from_slice(b" p:x=\"1\""),
+        1 => out.extend_from_slice(format!("{}x=\"1\"", sep).as_bytes()),
+        2 => out.extend_from_slice(format!("{}p:x=\"1\"", sep).as_bytes()),
         _ => {}
     }
     match e.nil {
-        1 => out.extend_from_slice(format!(" xmlns:xsi=\"{}\" xsi:nil=\"true\"", XSI).as_bytes()),
-        2 => out.extend_from_slice(b" i:nil=\"1\""),
+        1 => out.extend_from_slice(format!("{}xmlns:xsi=\"{}\"{}xsi:nil=\"true\"", sep, XSI, sep).as_bytes()),
+        2 => out.extend_from_slice(format!("{}i:nil=\"1\"", sep).as_bytes()),
         _ => {}
     }
     if e.empty_form {
@@ -248,7 +251,7 @@ fn write_elem(e: &Elem, out: &mut Vec<u8>) {
         out.push(b't');
     }
     for c in &e.children {
-        write_elem(c, out);
+        write_elem(c, sep, out);
     }
     out.extend_from_slice(b"</");
     out.extend_from_slice(e.name.as_bytes());
@@ -756,6 +759,126 @@ pub fn run(ctx: &Ctx) {
         }
         acc.sample(seed, i, || json!({"document": lossy(&input)}));
     });
+
+    // presentation of the attribute area: tab / line feed / CR LF TAB / two blanks in front of every
+    // attribute and declaration (fixed histories: plain, resolved, one skip at each Start)
+    let pres_srcs: Vec<SrcKind> = if full { vec![SrcKind::Slice, SrcKind::Buf(1)] } else { vec![SrcKind::Slice] };
+    ctx.layer("presentation.separators", 1, total * 4, json!({"separators": &SEPS[1..], "histories": "plain; resolved; read_to_end at the k-th Start after k resolved reads", "sources": pres_srcs.iter().map(|s| format!("{:?}", s)).collect::<Vec<_>>()}), |j, acc| {
+        let i = j / 4;
+        let sep = SEPS[1 + (j % 4) as usize];
+        let Some(doc) = build_doc(&fam, i, thorough) else { return };
+        let root_i = doc_uses_i(&doc);
+        let mut input = Vec::new();
+        write_doc_sep(&doc, root_i, sep, &mut input);
+        for expand in [false, true] {
+            let mut steps = Vec::new();
+            flatten(&doc, &mut Vec::new(), true, root_i, expand, &mut steps);
+            link_enclosing(&mut steps);
+            let nstarts = steps.iter().filter(|s| s.kind == 1).count();
+            for &src in &pres_srcs {
+                for h in fixed_histories(nstarts) {
+                    let mut n = 0;
+                    acc.evaluations += 1;
+                    match run_history(&input, &steps, expand, src, &h, None, &mut n) {
+                        Ok(calls) => {
+                            acc.transitions += calls;
+                            acc.traces += 1;
+                            acc.nt_count += 1;
+                        }
+                        Err(what) => acc.violation(
+                            (1, j),
+                            format!("document {:?} expand_empty={} source {:?} history {:?}: {}", lossy(&input), expand, src, h, what),
+                            json!({"doc": i, "sep": 1 + (j % 4), "input": bytes_json(&input), "expand": expand, "source": format!("{:?}", src), "history": h.iter().map(|c| format!("{:?}", c)).collect::<Vec<_>>()}),
+                        ),
+                    }
+                }
+            }
+        }
+    });
+
+    // depth and count thresholds of the resolver (bindings carry their nesting level; one shared
+    // buffer holds all prefixes and URIs): representative documents of the family inside `depth`
+    // wrapper elements; plain wrappers up to 65 538 deep, declaring wrappers (one new prefix per
+    // level, so `depth` bindings are alive) up to 300
+    if !full {
+        return; // the resolver is the same code in both builds
+    }
+    let reps: Vec<u64> = {
+        let mut v = Vec::new();
+        let mut i = 0u64;
+        // documents of shape r(c(g), c2) whose r, c and g all declare something, one per 97 indices
+        while i < total && v.len() < t.pick(6, 24) {
+            if let Some(d) = build_doc(&fam, i, thorough) {
+                let c = &d.children[0];
+                if d.children.len() == 2 && !d.decls.is_empty() && !c.decls.is_empty() && c.children.first().map_or(false, |g| !g.decls.is_empty()) {
+                    v.push(i);
+                    i += 96;
+                }
+            }
+            i += 1;
+        }
+        v
+    };
+    let mut depths: Vec<(usize, bool)> = Vec::new();
+    for d in crate::inputs::size_list(t.pick(20, 70), t.pick(16, 17)) {
+        if d == 0 {
+            continue;
+        }
+        depths.push((d as usize, false));
+        if d <= t.pick(300, 1100) {
+            depths.push((d as usize, true));
+        }
+    }
+    let nd = depths.len() as u64;
+    let deep_srcs: Vec<SrcKind> = if full { vec![SrcKind::Slice, SrcKind::Buf(0), SrcKind::Buf(7)] } else { vec![SrcKind::Slice] };
+    ctx.layer("depth.wrapped", 2, reps.len() as u64 * nd, json!({"documents": reps, "depths": format!("{} (plain wrappers) / subset <= {} (declaring wrappers)", "1..=dense and 2^j-2..2^j+2 up to 2^16 or 2^17", t.pick(300, 1100)), "histories": "plain; resolved; read_to_end of the innermost wrapper, of the outermost wrapper, of the document root, of its first child"}), |j, acc| {
+        let (depth, declaring) = depths[(j % nd) as usize];
+        let i = reps[(j / nd) as usize];
+        let Some(doc) = build_doc(&fam, i, thorough) else { return };
+        let root_i = doc_uses_i(&doc);
+        let mut input = Vec::new();
+        let mut steps = Vec::new();
+        for expand in [false, true] {
+            if expand && depth > 300 {
+                continue;
+            }
+            wrap(&doc, root_i, expand, depth, declaring, &mut input, &mut steps);
+            let lead = |n: usize, last: Choice| {
+                let mut h = vec![Choice::ReadEvent; n];
+                h.push(last);
+                h
+            };
+            let hists: Vec<Vec<Choice>> = vec![
+                vec![],
+                vec![Choice::ReadResolved],
+                lead(depth - 1, Choice::ReadToEnd),
+                vec![Choice::ReadToEnd],
+                lead(depth, Choice::ReadToEnd),
+                lead(depth + 1, Choice::ReadToEnd),
+            ];
+            for &src in &deep_srcs {
+                if depth > 5000 && src != SrcKind::Slice && src != SrcKind::Buf(0) {
+                    continue;
+                }
+                for (hi, h) in hists.iter().enumerate() {
+                    let mut n = 0;
+                    acc.evaluations += 1;
+                    match run_history(&input, &steps, expand, src, h, None, &mut n) {
+                        Ok(calls) => {
+                            acc.transitions += calls;
+                            acc.traces += 1;
+                            acc.nt_count += 1;
+                        }
+                        Err(what) => acc.violation(
+                            (2, j),
+                            format!("document {:?} inside {} {} wrapper elements <w>, expand_empty={} source {:?} history #{} ({}): {}", head(&input[if declaring { 0 } else { 3 * depth }..]), depth, if declaring { "declaring" } else { "plain" }, expand, src, hi, ["plain reads", "resolved reads", "read_to_end at the innermost wrapper", "read_to_end at the outermost wrapper", "read_to_end at the document root", "read_to_end at the first child"][hi], head(what.as_bytes())),
+                            json!({"doc": i, "wrap": {"depth": depth, "declaring": declaring}, "expand": expand, "source": format!("{:?}", src), "lead": h.len().saturating_sub(1), "history": h.last().map(|c| format!("{:?}", c))}),
+                        ),
+                    }
+                }
+            }
+        }
+    });
 }
 
 fn family(t: Tier, full: bool) -> Family {
@@ -774,21 +897,113 @@ fn doc_uses_i(e: &Elem) -> bool {
 }
 
 fn write_doc(doc: &Elem, root_i: bool, out: &mut Vec<u8>) {
+    write_doc_sep(doc, root_i, " ", out)
+}
+
+fn write_doc_sep(doc: &Elem, root_i: bool, sep: &str, out: &mut Vec<u8>) {
     if !root_i {
-        write_elem(doc, out);
+        write_elem(doc, sep, out);
         return;
     }
     // bind prefix i to the XSI namespace on the root
     let mut tmp = Vec::new();
-    write_elem(doc, &mut tmp);
+    write_elem(doc, sep, &mut tmp);
     // insert after "<r"
     out.extend_from_slice(&tmp[..2]);
-    out.extend_from_slice(format!(" xmlns:i=\"{}\"", XSI).as_bytes());
+    out.extend_from_slice(format!("{}xmlns:i=\"{}\"", sep, XSI).as_bytes());
     out.extend_from_slice(&tmp[2..]);
+}
+
+fn head(b: &[u8]) -> String {
+    if b.len() <= 400 {
+        lossy(b)
+    } else {
+        format!("{}...({} bytes)", lossy(&b[..160]), b.len())
+    }
+}
+
+/// The fixed histories of the presentation and depth layers: `lead` Start events read plainly, then `then`.
+fn fixed_histories(inner_starts: usize) -> Vec<Vec<Choice>> {
+    let mut v = vec![vec![], vec![Choice::ReadResolved]];
+    for k in 0..inner_starts {
+        let mut h = vec![Choice::ReadResolved; k];
+        h.push(Choice::ReadToEnd);
+        v.push(h);
+    }
+    v
+}
+
+/// Wraps a document in `depth` elements `w` (declaring: wrapper k declares prefix w<k>), giving input and steps.
+fn wrap(doc: &Elem, root_i: bool, expand: bool, depth: usize, declaring: bool, input: &mut Vec<u8>, steps: &mut Vec<Step>) {
+    input.clear();
+    steps.clear();
+    let mut chain: Vec<Scope> = Vec::new();
+    for k in 0..depth {
+        if declaring {
+            input.extend_from_slice(format!("<w xmlns:w{}='n{}'>", k, k).as_bytes());
+            chain.push(vec![(format!("w{}", k).into_bytes(), format!("n{}", k).into_bytes())]);
+        } else {
+            input.extend_from_slice(b"<w>");
+            // an empty scope does not change what is visible: the chain of a plain wrapper is one empty scope
+            chain = vec![vec![]];
+        }
+        steps.push(Step { kind: 1, name: "w", chain: chain.clone(), has_nil: false, attr: 0, end_idx: 0, depth: k + 1, enclosing_after: None });
+    }
+    let base = if declaring { chain.clone() } else { Vec::new() };
+    let mut inner = Vec::new();
+    flatten(doc, &mut base.clone(), true, root_i, expand, &mut inner);
+    let off = steps.len();
+    for mut st in inner {
+        st.end_idx += off;
+        steps.push(st);
+    }
+    let mut body = Vec::new();
+    write_doc(doc, root_i, &mut body);
+    input.extend_from_slice(&body);
+    for k in (0..depth).rev() {
+        input.extend_from_slice(b"</w>");
+        let ch = if declaring { chain[..k + 1].to_vec() } else { vec![vec![]] };
+        let ei = steps.len();
+        steps.push(Step { kind: 3, name: "w", chain: ch, has_nil: false, attr: 0, end_idx: 0, depth: k + 1, enclosing_after: None });
+        steps[k].end_idx = ei;
+    }
+    link_enclosing(steps);
 }
 
 pub fn replay(case: &Value) -> Result<(), String> {
     let i = case["doc"].as_u64().ok_or("no doc index")?;
+    if let Some(w) = case.get("wrap") {
+        let depth = w["depth"].as_u64().unwrap_or(1) as usize;
+        let declaring = w["declaring"].as_bool().unwrap_or(false);
+        let expand = case["expand"].as_bool().unwrap_or(false);
+        let src = match case["source"].as_str().unwrap_or("Slice") {
+            "Slice" => SrcKind::Slice,
+            "Buf(0)" => SrcKind::Buf(0),
+            _ => SrcKind::Buf(7),
+        };
+        let mut h = vec![Choice::ReadEvent; case["lead"].as_u64().unwrap_or(0) as usize];
+        match case["history"].as_str() {
+            Some("ReadResolved") => h.push(Choice::ReadResolved),
+            Some("ReadToEnd") => h.push(Choice::ReadToEnd),
+            _ => {}
+        }
+        for (t, full) in [(Tier::Quick, true), (Tier::Quick, false), (Tier::Thorough, true), (Tier::Thorough, false)] {
+            let fam = family(t, full);
+            if let Some(doc) = build_doc(&fam, i, false) {
+                let root_i = doc_uses_i(&doc);
+                let mut input = Vec::new();
+                let mut steps = Vec::new();
+                wrap(&doc, root_i, expand, depth, declaring, &mut input, &mut steps);
+                println!("family ({:?}, full={}): document {:?} inside {} wrappers (declaring={}) expand={} source {:?}", t, full, head(&input[if declaring { 0 } else { 3 * depth }..]), depth, declaring, expand, src);
+                let mut n = 0;
+                if let Err(e) = run_history(&input, &steps, expand, src, &h, None, &mut n) {
+                    return Err(head(e.as_bytes()));
+                }
+            }
+        }
+        return Ok(());
+    }
+    let sep = SEPS[case.get("sep").and_then(|s| s.as_u64()).unwrap_or(0) as usize];
     let recorded = bytes_from_json(&case["input"]);
     let mut found = None;
     for (t, full) in [(Tier::Quick, true), (Tier::Quick, false), (Tier::Thorough, true), (Tier::Thorough, false)] {
@@ -797,7 +1012,7 @@ pub fn replay(case: &Value) -> Result<(), String> {
         if let Some(doc) = build_doc(&fam, i, thorough) {
             let root_i = doc_uses_i(&doc);
             let mut input = Vec::new();
-            write_doc(&doc, root_i, &mut input);
+            write_doc_sep(&doc, root_i, sep, &mut input);
             if input == recorded {
                 found = Some((doc, root_i, input));
                 break;
